@@ -217,6 +217,14 @@ def run(ctx):
         ctx.explore("core-V2-n5", matrix_tree(["f32"], G3, [(5, 2), (5, 3)], [0, 1]),
                     body_factory("core"), shard_depth=4, distinct_by_construction=True)
 
+    # wider rows (other strides of the column views the filter negates / copies): d = 4, 5 with all
+    # goal vectors, d = 8 with at most one "max" column
+    ctx.explore("core-V2-d4d5", matrix_tree(["f32", "f64"], G3, [(2, 4), (3, 4), (2, 5)], [0, 1]),
+                body_factory("core"), shard_depth=4, distinct_by_construction=True)
+    ctx.explore("core-V2-n2d8", matrix_tree(["f32", "f64"], ["min", "max"], [(2, 8)], [0, 1],
+                                            lambda g: sum(x == "max" for x in g) <= 1),
+                body_factory("core"), shard_depth=4, distinct_by_construction=True)
+
     # Phase B: infinities and the implementation's sentinel magnitudes
     V5 = [0, 1, INF, 1e30, 2e30]
     shp = [(2, 1), (2, 2), (3, 1), (3, 2), (2, 3)]
@@ -251,7 +259,7 @@ def run(ctx):
     ms = [15, 16, 17, 33] if q else [15, 16, 17, 31, 32, 33, 48, 49]
     ctx.explore("block", block_tree(ms, [3] if q else [3, 4], ["f32"] if q else ["f32", "f64"]),
                 body_factory("block"), shard_depth=3, distinct_by_construction=True)
-    ctx.bound(core="n<=3 x d<=3 over {0,1,2}, both dtypes; n=4" + (" d<=2 / d=3 over {0,1}" if q else " d<=3; n=4,d=4 and n=5,d<=3 over {0,1}"),
+    ctx.bound(core="n<=3 x d<=3 over {0,1,2}, both dtypes; n<=3,d=4 / n=2,d=5 / n=2,d=8 (<=1 max goal) over {0,1}; n=4" + (" d<=2 / d=3 over {0,1}" if q else " d<=3; n=4,d=4 and n=5,d<=3 over {0,1}"),
               ext="n<=3,d<=2 and n=2,d=3 over {0,1,inf,1e30,2e30}(+1.5e308 f64)" + ("" if q else "; n=3,d=3 over {0,1,inf,1e30}"),
               mix="d=3, n<=3 over {0,1,2^24,1e20}", prime="n<=3,d<=2 over " + str(VP), block_rows=ms)
 
